@@ -4,6 +4,7 @@ from ..core.davsys import Config
 from . import e1common
 
 ASSUME = [
+    "one configuration has two workers: a second application object with its own store cache on the same directory (gunicorn workers = 2 in the repository's examples); every write is offered to either worker, and after every request both workers are audited and must show the same",
     "tags compared: getctag (both namespaces), sync-token, collection getetag",
     "cross-history oracle over ALL visited states: tag -> contents is a function, and (git) contents -> tag is a function",
     "the tags are read a second time at the end of every audit (after the audit's own PROPFIND of all properties, GETs and reports): reads must not move them",
@@ -22,6 +23,8 @@ def configs(tier):
     # property values next to the canonical ones (a colour without '#'): one property per configuration, see ASSUME
     cprops = {"cal": {"calcolor": ["ff0000", "#00ff00"]}, "ab": {"abcolor": ["0000ff"]}}
     out.append(Config(front="wsgi", backend="tree", prefix="/", features={"nope"}, bodies={"cal": ["X"], "ab": ["K"], "c2": []}, props=cprops, oracles={"C08"}, label="tree/wsgi+colours"))
+    out.append(Config(front="wsgi", backend="bare", prefix="/", features={"two-workers"}, names={"cal": ["a.ics", "b.ics"], "ab": ["a.vcf"], "c2": []}, bodies={"cal": ["X", "X2"], "ab": ["K"], "c2": []},
+                      props={"cal": {"displayname": ["d1"]}}, oracles={"C08"}, label="bare/wsgi+two-workers"))
     if tier == "thorough":
         out += [
             Config(front="aio", backend="tree", prefix="/dav/", features=feats | {"post"}, bodies=bodies, props=props, oracles={"C08"}),
